@@ -323,7 +323,11 @@ fn judge_resampled2(
         c.close(api, "first == P(0)", class, (ov[0] - m.v[0]).norm(), 0.0, eps);
         let last_src = m.v[m.v.len() - 1];
         // closed outputs end on their first vertex (within tol)
-        let lt = if closed { tol + eps } else { eps };
+        // ... and so does an open output whose last sample lands within tol of the one before it
+        // in space although they are a full spacing apart along the curve (a curve that comes back
+        // to its own end point): the construction merges the two
+        let merged_end = exp.len() >= 2 && (exp[exp.len() - 1] - exp[exp.len() - 2]).norm() <= tol * (1.0 + 1e-9) + eps;
+        let lt = if closed || merged_end { tol + eps } else { eps };
         c.close(api, "last == P(L)", class, (ov[ov.len() - 1] - last_src).norm(), 0.0, lt);
         // chord error only: nothing of the original is farther than half a sample spacing away
         let worst = m.v.iter().map(|p| dist_poly2(&ov, p)).fold(0.0, f64::max);
